@@ -880,23 +880,40 @@ def m_iter_hof(ex, st, callee, A):
 
 
 def m_option_eq(ex, st, callee, A):
-    """Option<scalar> == Option<scalar> on values whose variants are concrete"""
-    m = re.match(r'^<(?:std::option::|core::option::)?Option<(bool|[iu](?:8|16|32|64|128|size)|char)> as PartialEq>::(eq|ne)$', callee)
+    """Option<T> == Option<T> on values whose variants are concrete: scalars compared directly, other payloads through `<T as PartialEq>::eq`"""
+    m = re.match(r'^<(?:std::option::|core::option::)?Option<(.+)> as PartialEq>::(eq|ne)$', callee)
     if not m:
         return None
     a, b = _res(ex, st, A[0]), _res(ex, st, A[1])
     if not (isinstance(a, Agg) and isinstance(b, Agg) and a.variant in ('Some', 'None') and b.variant in ('Some', 'None')):
         return None
+    neg = m.group(2) == 'ne'
     if a.variant != b.variant:
-        t = z3.BoolVal(False)
-    elif a.variant == 'None':
-        t = z3.BoolVal(True)
-    else:
-        x, y = _res(ex, st, a.fields[0]), _res(ex, st, b.fields[0])
-        if not (isinstance(x, (BoolV, IntV)) and isinstance(y, (BoolV, IntV))):
-            return None
+        return BoolV(z3.BoolVal(neg))
+    if a.variant == 'None':
+        return BoolV(z3.BoolVal(not neg))
+    x, y = _res(ex, st, a.fields[0]), _res(ex, st, b.fields[0])
+    if isinstance(x, (BoolV, IntV)) and isinstance(y, (BoolV, IntV)):
         t = x.t == y.t
-    return BoolV(t if m.group(2) == 'eq' else z3.Not(t))
+        return BoolV(z3.Not(t) if neg else t)
+    refs = []
+    for r in (A[0], A[1]):
+        if not isinstance(r, Ref):
+            return None
+        while isinstance(ex.read(st, r.fid, r.place), Ref):
+            r = ex.read(st, r.fid, r.place)
+        refs.append(Ref(r.fid, ('field', ('downcast', r.place, 'Some'), 0, m.group(1))))
+    r = ex.dispatch(st, f'<{m.group(1)} as PartialEq>::eq', refs)
+    if not neg:
+        return r
+    flip = lambda st2, v: BoolV(z3.Not(v.t))
+    if isinstance(r, Enter):
+        if r.then is not None:
+            raise NotEncoded('nested continuation')
+        return Enter(r.func, r.args, flip, r.subst)
+    if isinstance(r, BoolV):
+        return BoolV(z3.Not(r.t))
+    raise NotEncoded(f'Option::ne over {r!r}')
 
 
 def m_ref_eq(ex, st, callee, A):
@@ -939,7 +956,7 @@ def install(ex):
         (r'PartialOrd(<[^>]*>)?>::(lt|le|gt|ge)$|Ord>::(max|min)$', m_partial_ord),
         (r'(From|Into|TryFrom|TryInto)<\w+>>::(from|into|try_from|try_into)$', m_int_conv),
         (r'(Try>::branch|Try>::from_output|::from_residual)$', m_try),
-        (r'Option<\w+> as PartialEq>::(eq|ne)$', m_option_eq),
+        (r'Option<.+> as PartialEq>::(eq|ne)$', m_option_eq),
         (r'Option::<', m_option),
         (r'Result::<', m_result),
         (r'^<&.+ as PartialEq(<&.+>)?>::(eq|ne)$|^<.+ as PartialEq(<.*>)?>::ne$', m_ref_eq),
